@@ -24,7 +24,8 @@ silently, therefore every returned region is also bounds-checked against the arr
 
 Contracts (icontract, see every internal call incl. those made by Layout2D / Array2D): layout_util.
 rotate_array_via_roe_corner_from, rotate_region_via_roe_corner_from, region_after_extraction, x0x1_after_extraction,
-Region2D.__init__, Region1D.__init__ - each with the same label oracle evaluated on the call's own arguments.
+Region2D.__init__, Region1D.__init__ - each with the same label oracle evaluated on the call's own arguments. The
+thorough tier additionally replays the repository's own test suite with these contracts installed (DESIGN 1.5).
 
 Validated against (tools/mutant.py, 2026-10-03). The three seeded breaks of DESIGN as written are not usable: two are
 killed by the repository's own suite, one is an equivalent mutant; suite-green variants of each were used instead.
@@ -45,8 +46,9 @@ Every mutant below keeps the repository suite green (699/699) and is caught by t
                                                           -> layout.new_rotated_from.twice
 Also caught by quick but NOT suite-green (the suite kills them too): DESIGN's "reflect x with shape[0]" (m19a),
 "trailing region measured from y0" (m19c), touching intervals returned as empty regions (m19i).
-Not caught, correctly: DESIGN's "`x1e > x1o` -> `>=`" (m19b) is an equivalent mutant - x1e == x1o is taken by the
-preceding branch `x1e >= x0o and x1e <= x1o`, the function's input/output relation is unchanged.
+Not caught, correctly: DESIGN's "`x1e > x1o` -> `>=`" (m19b) is an equivalent mutant on the statement's domain - for
+valid intervals (x0o<x1o, x0e<x1e) x1e == x1o is taken by the preceding branch `x1e >= x0o and x1e <= x1o` (0 differences
+over all 1296 interval pairs in [0,8]); it only changes the result for an invalid original interval (x0o >= x1o).
 """
 import numpy as np
 
@@ -123,6 +125,8 @@ def plan(tier, seed):
     units.append({"kind": "valid", "B": B, "w": (B + 3) ** 4 * 2})
     for L in range(1, B + 3):
         units.append({"kind": "r1d", "L": L, "w": L ** 4})
+    if tier == "thorough":
+        units.append({"kind": "suite", "w": 10 ** 7})   # the repository's own tests with the contracts installed (DESIGN 1.5)
     return units
 
 
@@ -246,8 +250,14 @@ def post_region1d_init(ctx, a, result, old):
 
 def setup(ctx):
     ctx.aa = env.boot("base")
-    from autoarray.layout import layout_util, region as region_mod
+    from autoarray.layout import layout_util
     ctx.lu = layout_util
+    install_contracts(ctx)
+
+
+def install_contracts(ctx):
+    """Also used by harness/suite_plugin.py: the repository's own layout tests drive the same contracts (thorough)."""
+    from autoarray.layout import layout_util, region as region_mod
     contracts.attach(ctx, layout_util, "rotate_array_via_roe_corner_from", post_rotate_array)
     contracts.attach(ctx, layout_util, "rotate_region_via_roe_corner_from", post_rotate_region)
     contracts.attach(ctx, layout_util, "region_after_extraction", post_region_after_extraction)
@@ -326,6 +336,8 @@ def run_rot(ctx, u):
                         ctx.check(np.array_equal(np.asarray(oo), keep) and np.array_equal(native_of(A), exp),
                                   "array2d.original_orientation", shape=(H, W), corner=c, how=how, expected=keep, got=lambda: np.asarray(oo))
                 # observation only: slim-stored arrays
+                ctx.note("observation (not checked): a slim-stored Array2D hands its 1-D buffer to the rotation - "
+                         "original_orientation raises IndexError for corners (0,0),(0,1),(1,1) and returns the 1-D buffer for (1,0)")
                 As = aa.Array2D.no_mask(values=exp.copy(), pixel_scales=ps, header=hdr)
                 try:
                     o = np.asarray(As.original_orientation)
